@@ -275,6 +275,95 @@ def parseRule {α β : Type} (lines : List (Kw × Payload α β)) : Option (Rule
 
 end Wntr.InpText
 
+/-! ## `InpNorm` — the normalisation under which the oracle compares a model with its re-read copy
+(`harness/props/c12.py: normalise`): what an INP file cannot distinguish -/
+namespace Wntr.InpNorm
+open Wntr.InpText
+
+/-- a rule condition as the AND of OR-groups the [RULES] syntax can say (EPANET and WNTR read `a AND b OR c` as
+`a AND (b OR c)`); groups and atoms in writing order -/
+def cnf {α : Type} : Cond α → List (List α)
+  | .atom a => [[a]]
+  | .and l r => cnf l ++ cnf r
+  | .or l r => (cnf l).flatMap fun g1 => (cnf r).map fun g2 => g1 ++ g2
+
+def orTree {α : Type} (a : α) (rest : List α) : Cond α := rest.foldl (fun t x => .or t (.atom x)) (.atom a)
+
+def groupTree {α : Type} [Inhabited α] (g : List α) : Cond α := orTree (g.headD default) g.tail
+
+/-- the canonical tree of a list of groups: left-nested AND of left-nested ORs -/
+def ofGroups {α : Type} [Inhabited α] (gs : List (List α)) : Cond α :=
+  (gs.tail.map groupTree).foldl .and (groupTree (gs.headD []))
+
+structure Demand where
+  base : Int
+  pat : Option String
+  cat : Option String
+  deriving Repr, DecidableEq
+
+structure Junction where
+  name : String
+  demands : List Demand
+  deriving Repr, DecidableEq
+
+structure Pump where
+  name : String
+  closed : Bool
+  setting : Option Int   -- speed setting in thousandths (1000 = the format's default 1.0)
+  deriving Repr, DecidableEq
+
+structure Source where
+  name : String
+  node : String
+  strength : Int
+  pat : Option String
+  deriving Repr, DecidableEq
+
+structure Opts where
+  pattern : Option String
+  energyPattern : Option String
+  price : Option Int
+  deriving Repr, DecidableEq
+
+structure Model (α : Type) where
+  patterns : List String
+  junctions : List Junction
+  pumps : List Pump
+  sources : List Source
+  ctls : List CtlCond
+  rules : List (Cond α)
+  opts : Opts
+
+/-- a pattern name that names no pattern of the model carries nothing -/
+def normPat (ps : List String) : Option String → Option String
+  | some n => if ps.contains n then some n else none
+  | none => none
+
+/-- a junction without a demand entry = one zero demand without pattern and category -/
+def normDemands (ps : List String) : List Demand → List Demand
+  | [] => [⟨0, none, none⟩]
+  | ds => ds.map fun d => { d with pat := normPat ps d.pat }
+
+/-- [STATUS] holds one word per link: a closed pump has no place for a setting; an unset speed is the default 1.0 -/
+def normPump (p : Pump) : Pump :=
+  if p.closed then { p with setting := none } else { p with setting := some (p.setting.getD 1000) }
+
+/-- INP files store sources without names -/
+def normSource (ps : List String) (s : Source) : Source := { s with name := "", pat := normPat ps s.pat }
+
+def normOpts (ps : List String) (o : Opts) : Opts := ⟨normPat ps o.pattern, normPat ps o.energyPattern, some (o.price.getD 0)⟩
+
+def norm {α : Type} [Inhabited α] (m : Model α) : Model α :=
+  { patterns := m.patterns
+    junctions := m.junctions.map fun j => { j with demands := normDemands m.patterns j.demands }
+    pumps := m.pumps.map normPump
+    sources := m.sources.map (normSource m.patterns)
+    ctls := m.ctls.map CtlCond.norm
+    rules := m.rules.map fun c => ofGroups (cnf c)
+    opts := normOpts m.patterns m.opts }
+
+end Wntr.InpNorm
+
 /-! ## `InpFormat` — the number formats of the INP writers (`'{:.4f}'`, `'{:12f}'`, `'{:15.11g}'`, `str(x)`)
 
 Python formats the EXACT value of the double (a rational) correctly rounded, ties to even.  Modelled on `Rat`:
